@@ -7,6 +7,7 @@
 -/
 import Proofs.CommuteAroundSuccess
 import Proofs.CommuteMarkup
+import Proofs.MarkSuccess
 namespace PM
 
 /-- the partner spliced `[f1, t1)`, `t1 < from`: the replace-around step shifted by the size change applies
@@ -212,5 +213,74 @@ theorem nodeStep_apply_of (S : Schema) (doc n u : Node) (pos : Nat) (st : Step) 
   rcases hst with ⟨m, rfl⟩ | ⟨m, rfl⟩ | ⟨nm, v, rfl⟩ <;>
     simp only [stepAttrs, stepMarks] at hu <;> simp [Schema.apply, hn, hu]
 
+
+theorem stepAttrs_mapPos (N : Step) (g : Nat → Nat) (pos : Nat) (hN : NodeStepAt pos N) :
+    stepAttrs (N.mapPos g) = stepAttrs N ∧ (∀ S, stepMarks S (N.mapPos g) = stepMarks S N) ∧
+      NodeStepAt (g pos) (N.mapPos g) := by
+  rcases hN with ⟨m, rfl⟩ | ⟨m, rfl⟩ | ⟨n, v, rfl⟩
+  · exact ⟨rfl, fun _ => rfl, .inl ⟨m, rfl⟩⟩
+  · exact ⟨rfl, fun _ => rfl, .inr (.inl ⟨m, rfl⟩)⟩
+  · exact ⟨rfl, fun _ => rfl, .inr (.inr ⟨n, v, rfl⟩)⟩
+
+
+/-! ### mark steps as replace steps -/
+
+/-- a mark step that applies is the plain replace of its range by the re-marked slice -/
+theorem markStep_as_replace (S : Schema) (d db : Node) (f2 t2 : Nat) (mk : Mark) (M : Step)
+    (hM : M = .addMark f2 t2 mk ∨ M = .removeMark f2 t2 mk) (hn : fnorm d.kids = true)
+    (hb : S.apply M d = .ok db) :
+    ∃ old slM, d.slice f2 t2 = .ok old ∧ slM.openStart = old.openStart ∧ fnorm slM.content = true ∧
+      S.apply (.replace f2 t2 slM false) d = .ok db := by
+  rcases hM with rfl | rfl
+  · have h' := hb
+    unfold Schema.apply at h'
+    simp only at h'
+    split at h'
+    · simp at h'
+    · rename_i old hold
+      split at h'
+      · simp at h'
+      · rename_i p hp
+        refine ⟨old, ⟨fromArray (addMarkKids S mk p old.content), old.openStart, old.openEnd⟩, hold, rfl, ?_,
+          by simpa [Schema.apply] using h'⟩
+        have hon := (sliceKids_norm d.kids f2 t2 old hn hold).1
+        simp only [addMarkKids_eq_map]
+        exact fromArray_norm _ ((addMark_markMap S mk).norm_list _ p (fnormKids_of_fnorm hon))
+  · have h' := hb
+    unfold Schema.apply at h'
+    simp only at h'
+    split at h'
+    · simp at h'
+    · rename_i old hold
+      refine ⟨old, ⟨fromArray (removeMarkKids S mk old.content), old.openStart, old.openEnd⟩, hold, rfl, ?_,
+        by simpa [Schema.apply] using h'⟩
+      have hon := (sliceKids_norm d.kids f2 t2 old hn hold).1
+      simp only [removeMarkKids_eq_map]
+      exact fromArray_norm _ ((removeMark_markMap S mk).norm_list _ 0 (fnormKids_of_fnorm hon))
+
+/-- the facts of `MarkStepFacts` for either mark step -/
+theorem markStep_facts (S : Schema) (d db : Node) (f2 t2 : Nat) (mk : Mark) (M : Step)
+    (hM : M = .addMark f2 t2 mk ∨ M = .removeMark f2 t2 mk) (hb : S.apply M d = .ok db) :
+    MarkStepFacts d.kids db.kids f2 t2 := by
+  rcases hM with rfl | rfl
+  · exact addMark_facts S d db f2 t2 mk hb
+  · exact removeMark_facts S d db f2 t2 mk hb
+
+/-- either mark step applies to a valid normal-form document at in-range pair-aligned positions -/
+theorem markStep_applies (S : Schema) (hts : TextLoop S) (d : Node) (f2 t2 : Nat) (mk : Mark)
+    (g : Nat → Nat) (M : Step) (hM : M = .addMark f2 t2 mk ∨ M = .removeMark f2 t2 mk)
+    (hv : S.checkNode d = true) (hn : fnorm d.kids = true) (hel : ∃ ty a m K, d = .elem ty a m K)
+    (hft : g f2 ≤ g t2) (ht : g t2 ≤ fsize d.kids)
+    (haf : alignedAt d.kids (g f2) = true) (hat : alignedAt d.kids (g t2) = true) :
+    ∃ d', S.apply (M.mapPos g) d = .ok d' := by
+  obtain ⟨ty, a, m, K, rfl⟩ := hel
+  rcases hM with rfl | rfl
+  · exact addMark_applies S hts ty a m K _ _ mk hv hn hft ht haf hat
+  · exact removeMark_applies S hts ty a m K _ _ mk hv hn hft ht haf hat
+
+theorem markStep_span (f2 t2 : Nat) (mk : Mark) (M : Step)
+    (hM : M = .addMark f2 t2 mk ∨ M = .removeMark f2 t2 mk) :
+    M.posSpan = some (f2, t2) ∧ M.touch = some (f2, t2) := by
+  rcases hM with rfl | rfl <;> exact ⟨rfl, rfl⟩
 
 end PM
